@@ -83,6 +83,12 @@ PLANTED = [
      "static __thread int cffi_saved_errno = 0;", "static int cffi_saved_errno = 0;"),
     ('C22', 'callback does not save errno on entry', 'src/c/_cffi_backend.c',
      "                            void *userdata)\n{\n    save_errno();\n    {", "                            void *userdata)\n{\n    {"),
+    ('C22', 'extern "Python": entry errno parked in a static until the GIL is held', 'src/c/call_python.c',
+     ["    save_errno();\n\n    /* We need the infotuple here.", "        PyGILState_STATE state = gil_ensure();\n        if (externpy->reserved1 != _current_interp_key()) {"],
+     ["    static int entry_errno; entry_errno = errno;\n\n    /* We need the infotuple here.", "        PyGILState_STATE state = gil_ensure(); errno = entry_errno; save_errno();\n        if (externpy->reserved1 != _current_interp_key()) {"]),
+    ('C22', 'callback: errno handed back only when the GIL had to be taken', 'src/c/_cffi_backend.c',
+     "        general_invoke_callback(1, result, (char *)args, userdata);\n        gil_release(state);\n    }\n    restore_errno();",
+     "        general_invoke_callback(1, result, (char *)args, userdata);\n        gil_release(state);\n        if (state != PyGILState_UNLOCKED) return;\n    }\n    restore_errno();"),
     ('C36', 'thread state not pinned', 'src/c/misc_thread_common.h',
      "    tls->local_thread_canary = canary;\n    tstate->gilstate_counter++;", "    tls->local_thread_canary = canary;"),
     ('C36', 'zombies never reclaimed', 'src/c/misc_thread_common.h',
@@ -143,13 +149,16 @@ def sensitivity(ids):
             path = os.path.join(wt, rel)
             with open(path) as f:
                 s = f.read()
-            if old not in s:
+            olds, news = (old, new) if isinstance(old, list) else ([old], [new])
+            if any(o not in s for o in olds):
                 line = '%s planted bug "%s": PATTERN NOT FOUND in %s (tree changed?)' % (pid, name, rel)
                 print(line)
                 lines.append(line)
                 continue
             with open(path, 'w') as f:
-                f.write(s.replace(old, new, 1))
+                for o, n in zip(olds, news):
+                    s = s.replace(o, n, 1)
+                f.write(s)
             env = dict(os.environ, VERIF_REPO=wt)
             env.pop('VERIF_REEXEC', None)
             t0 = time.time()
